@@ -168,6 +168,27 @@ def _unbounded(e, depth=0):
     return False
 
 
+def _regex_group_indexes(fx, fn):
+    """number of `captures["name"]` index expressions in fn whose name is a named group (`(?<name>` / `(?P<name>`) of a regex literal in fn's file"""
+    bs = fx.bodies.get(fn, [])
+    if len(bs) != 1:
+        return 0
+    groups = set()
+    for b2 in fx.all_bodies if hasattr(fx, "all_bodies") else fx.body_list:
+        if b2["file"] != bs[0]["file"]:
+            continue
+        for node in walk(b2["body"]):
+            if node.get("k") == "Lit" and isinstance(node.get("v"), str):
+                groups |= set(re.findall(r"\(\?P?<([A-Za-z_][A-Za-z0-9_]*)>", node["v"]))
+    n = 0
+    for node in walk(bs[0]["body"]):
+        if node.get("k") == "Index":
+            base, idx = strip(node.get("e", node.get("base", {}))), strip(node.get("i", node.get("idx", node.get("index", {}))))
+            if "Captures" in str(base.get("ty", "")) and idx.get("k") == "Lit" and idx.get("v") in groups:
+                n += 1
+    return n
+
+
 def _infinite_searches(fx, fn, kind):
     """number of `.unwrap()` / `.expect(..)` calls in fn whose receiver is find / next / position / find_map on an unbounded iterator"""
     bs = fx.bodies.get(fn, [])
@@ -225,6 +246,12 @@ def rule_sites(ctx):
             ctx.ok("PANIC-TAB", "moved:%s|%s" % (f, kind), "%s:%s" % (f, l),
                    "%d site(s) of kind `%s` in %s: as many discharged sites of that kind left their listed functions in the same file (code motion / helper extraction)" % (extra, kind, fn), nontrivial=False)
             extra = 0
+        if extra > 0 and kind == "index" and _regex_group_indexes(fx, fn) >= n:
+            ctx.ok("PANIC-TAB", "regex-group:%s|%s" % (fn, kind), "%s:%s" % (f, l),
+                   "%d index site(s) in %s read a named group of regex captures, and a regex literal of the same file has a group of that name" % (n, fn), nontrivial=False)
+            extra = 0
+            if ent is None:
+                continue
         if extra > 0 and kind in ("unwrap", "expect") and _infinite_searches(fx, fn, kind) >= n:
             ctx.ok("PANIC-TAB", "inf:%s|%s" % (fn, kind), "%s:%s" % (f, l),
                    "%d `%s` site(s) in %s take the result of find / next / position on an iterator built from an unbounded range (`n..`): it is never None" % (n, kind, fn), nontrivial=False)
